@@ -153,6 +153,10 @@ std::istream& deserialize(std::istream& is, std::map< KeyT, ValueT >& rhs)
         ValueT value;
         deserialize(is, key);
         deserialize(is, value);
+        if (!is) {
+            // a count that exceeds the data (e.g. "-1", read as 2^64-1) must not be iterated to the end
+            break;
+        }
         rhs[key] = value;
     }
 
